@@ -53,3 +53,30 @@ def sites_structure(matrix, frac, labels, specie='Li'):
         coords=np.array(frac, float),
         labels=list(labels),
     )
+
+
+PRELUDE_OPS = ['displacements', 'positions', 'msd', 'distances', 'cumulative', 'drift', 'volume']
+
+
+def prelude(t, ops):
+    """read-only queries issued on a trajectory before the analysis under test (they switch the internal representation;
+    the analysis must not depend on which representation the object happens to be in)"""
+    from .runner import gcall
+
+    for op in ops or []:
+        if op == 'displacements':
+            gcall(lambda: t.displacements)
+        elif op == 'positions':
+            gcall(lambda: t.positions)
+        elif op == 'msd':
+            gcall(t.mean_squared_displacement)
+        elif op == 'distances':
+            gcall(t.distances_from_base_position)
+        elif op == 'cumulative':
+            gcall(lambda: t.cumulative_displacements)
+        elif op == 'drift':
+            gcall(t.drift)
+        elif op == 'volume':
+            import numpy as np
+
+            gcall(t.to_volume, resolution=float(np.linalg.norm(t.get_lattice().matrix, axis=1).min()) / 2.0)
